@@ -29,12 +29,17 @@ import zoo
 import zoo_c13 as z
 
 PROPERTY = "C13"
-LEAN_MODULE = "PyOak.Props.C13"
+LEAN_MODULE = "PyOak.Props.C13All"
 THEOREMS = ["PyOak.C13." + t for t in [
     "isInstance_eq_conforms", "isInstance_iff_conforms", "isInstance_union", "bool_conforms_bool_not_int",
     "int_conforms_float", "isInstance_newtype", "isInstance_tupleFix", "isInstance_tupleVar", "isInstance_none",
     "invalid_fields_exact", "construct_on", "construct_on_error_nonempty", "construct_off", "construct_same",
     "id_fields_never_invalid"]]
+# additions (AUDIT item #8): the sound half without any don't-care hypothesis
+THEOREMS += ["PyOak.C13." + t for t in [
+    "conforms_imp", "conformsAny_imp", "conformsZip_imp", "construct_ok_of_conforms", "checkRuntimeTypes_sublist",
+    "checkRuntimeTypes_subset", "construct_error_sound", "construct_error_witness", "invalid_fields_exact_checked",
+    "construct_on_checked", "field_reported_iff", "isInstance_lit", "conforms_lit", "lit_exact"]]
 RULE = ("(annotation, value) pairs: annotations drawn from the accepted grammar (scalars, Any, None, Literal, Enum, "
         "NewType at any depth, Union/Optional/| spellings, fixed/variadic/empty/bare tuples, frozenset, Sequence, "
         "Mapping, node and origin classes; typing and builtin spellings; depth <= 3), values = for each annotation two "
